@@ -155,6 +155,11 @@ def main (args : List String) : IO UInt32 := do
       let ms := randomWalk inst.M inst.nSinks len.toNat! r noFilter mode.toNat!
       IO.println s!"{name} | {scriptTxt ms} | {traceTxt inst.M inst.fb ms}"
     return 0
+  | ["long", name, rounds, burst, mode] =>   -- long deterministic walks (Script.lean `longWalk`)
+    let some inst := instOf name | IO.eprintln s!"unknown instance {name}"; return 2
+    let ms := longWalk inst.M inst.nSinks rounds.toNat! burst.toNat! mode.toNat!
+    IO.println s!"{name} | {scriptTxt ms} | {traceTxt inst.M inst.fb ms}"
+    return 0
   | ["gen14", name, depth] =>
     let some inst := instOf name | IO.eprintln s!"unknown instance {name}"; return 2
     let ls := leaves inst.M inst.nSinks depth.toNat! (Sys.init inst.M) [] #[] pullableB
